@@ -24,6 +24,11 @@ export function f2Decls() {
     Alias("ON", ObjT([Prop("a", P("string")), Prop("b", P("string"))], [{ key: P("number"), val: P("boolean") }])),
     Alias("OS", ObjT([Prop("a", P("string"))], [{ key: P("string"), val: P("string") }])),
     Alias("RN", Rec(P("number"), P("boolean"))),
+    // an intersection that cannot be merged into one object (a named base narrowed by a literal): keyof is computed semantically
+    Alias("Base2", ObjT([Prop("kind", P("string")), Prop("id", P("string"))])),
+    Alias("Circle", I(Ref("Base2"), ObjT([Prop("kind", L("circle")), Prop("r", P("number"))]))),
+    Alias("Wide", ObjT([Prop("a", P("string")), Prop("id", P("number")), Prop("kind", P("boolean")), Prop("r", P("string"))])),
+    Alias("Flat", Mapped("K", Keyof(Param("T")), Index(Param("T"), Param("K"))), ["T"]),
     Alias("TR1", Tup([P("string")], P("number"))),
     Alias("TR2", Tup([P("string"), P("boolean")], P("number"))),
     Alias("TR0", Tup([], P("number"))),
@@ -50,6 +55,8 @@ export function f2Types() {
   // declared members next to an index signature (number / string keys), unions and intersections of such objects
   for (const o of [Ref("ON"), Ref("OS"), Ref("RN"), U(Ref("ON"), ObjT([Prop("a", P("string")), Prop("b", P("number"))])), I(ObjT([Prop("a", P("string"))]), Ref("RN")), I(Ref("ON"), Ref("O1"))]) out.push(Keyof(o));
   out.push(Index(Ref("ON"), L("a")), Index(Ref("ON"), P("number")), Index(Ref("RN"), P("number")), Index(Ref("OS"), L("a")), Index(Ref("OS"), P("string")));
+  // keyof of an unmergeable intersection feeding mapped types, Pick, Omit and Record
+  out.push(Keyof(Ref("Circle")), Ref("Flat", [Ref("Circle")]), Util("Omit", Ref("Wide"), Keyof(Ref("Circle"))), Util("Pick", Ref("Wide"), Keyof(Ref("Circle"))), Rec(Keyof(Ref("Circle")), P("number")), Keyof(U(Ref("Circle"), ObjT([Prop("id", P("string")), Prop("z", L(1))]))));
   // a literal key that only the index signature answers
   out.push(Index(Ref("RS"), L("a")), Index(Ref("OS"), L("zz")), Index(Ref("OS"), U(L("a"), L("zz"))), Index(Rec(P("string"), L(1)), L("k")), Index(U(Ref("RS"), ObjT([Prop("a", L("x"))])), L("a")));
   for (const o of objs) for (const k of keyArgs) out.push(Index(o, k));
